@@ -103,8 +103,11 @@ type FOOp struct {
 	// only used by oracles that tell writes apart by position, not by value.
 	BuildEqual bool `json:"build_equal,omitempty"`
 	// BuildErrKind: what the builder's error wraps when it fails (see ErrTok.W).
-	BuildErrKind string    `json:"build_err_kind,omitempty"`
-	BuildTTLs    []TTLCall `json:"build_ttls,omitempty"`
+	BuildErrKind string `json:"build_err_kind,omitempty"`
+	// NestKey > 0: while it runs, the builder calls Get on the same Failover for key NestKey-1 (a different
+	// key: building one value from another cached one). The nested Get is recorded like any other.
+	NestKey   int       `json:"nest_key,omitempty"`
+	BuildTTLs []TTLCall `json:"build_ttls,omitempty"`
 
 	// Caller behaviour after Get returned.
 	Cancel    string `json:"cancel,omitempty"`     // "", before (ctx already cancelled), after (cancel after return), deadline (deadline passes later)
@@ -171,6 +174,8 @@ type opRec struct {
 	builds      []*buildRec
 
 	locksAtInvoke []string // per-key build locks held when the Get was invoked (hook observation)
+	task          string   // simulator task that issued the Get
+	nested        bool     // issued by a builder (for another key)
 }
 
 func (o *opRec) id() string { return fmt.Sprintf("c%d.%d", o.client, o.idx) }
@@ -356,6 +361,7 @@ type foRun struct {
 	apiStopped bool
 
 	sharedCtx context.Context
+	nestedOps []*FOOp
 }
 
 func (r *foRun) cfgUpdateTTL() time.Duration {
@@ -864,7 +870,7 @@ func (r *foRun) doGet(ci, oi int, op *FOOp, shared []byte) []byte {
 		ctx = cache.WithSkipRead(ctx)
 	}
 
-	rec := &opRec{client: ci, idx: oi, op: op, key: key, hadCtxTTL: op.HasCtxTTL}
+	rec := &opRec{client: ci, idx: oi, op: op, key: key, hadCtxTTL: op.HasCtxTTL, task: e.s.CurID(), nested: ci >= nestedClientBase}
 	r.ops = append(r.ops, rec)
 
 	build := func(bctx context.Context) (Tok, error) { return r.builder(rec, bctx) }
@@ -957,6 +963,9 @@ func opFlags(op *FOOp) string {
 
 type builderPanic struct{}
 
+// nestedClientBase: client numbers of Gets issued by builders (ids c1000.x and up).
+const nestedClientBase = 1000
+
 var errBuilderPanicked = errors.New("builder panicked (scripted)")
 
 func (r *foRun) builder(rec *opRec, ctx context.Context) (Tok, error) {
@@ -964,7 +973,7 @@ func (r *foRun) builder(rec *opRec, ctx context.Context) (Tok, error) {
 	op := rec.op
 
 	b := &buildRec{op: rec, key: rec.key, task: e.s.CurID()}
-	b.background = b.task != fmt.Sprintf("c%d", rec.client)
+	b.background = b.task != rec.task
 	b.enter = e.s.NextSeq()
 	b.enterNs = e.s.NowNs()
 	b.ctxErrEnter = ctx.Err()
@@ -992,6 +1001,14 @@ func (r *foRun) builder(rec *opRec, ctx context.Context) (Tok, error) {
 	e.logf("build enter %s key=%q task=%s", rec.id(), rec.key, b.task)
 
 	zs.Yield("build.enter")
+
+	if op.NestKey > 0 && op.NestKey-1 < len(r.sc.Keys) && r.sc.Keys[op.NestKey-1] != rec.key && !rec.nested {
+		// the builder needs another cached value: a Get for a different key on the same Failover
+		nop := &FOOp{Kind: "get", Key: op.NestKey - 1}
+		r.nestedOps = append(r.nestedOps, nop)
+		e.out.probe("builder_calls_get_for_another_key")
+		r.doGet(nestedClientBase+rec.client, rec.idx, nop, nil)
+	}
 
 	if op.BuildSleepNs > 0 {
 		zs.Sleep(dur(op.BuildSleepNs))
